@@ -14,7 +14,7 @@ EXTENDS Cli
 CONSTANT DIE_PRINTS
 VARIABLES inv, lib, readinput
 
-Invs == [exprsrc : {"arg", "file", "missingfile"}, inputsrc : {"stdin", "file", "missingfile"}, unquoted : BOOLEAN, ast : BOOLEAN]
+Invs == [exprsrc : {"arg", "file", "missingfile"}, inputsrc : {"stdin", "file", "devstdin", "missingfile"}, unquoted : BOOLEAN, ast : BOOLEAN]
 Libs == [stage : {"compile", "json", "search", "ok"}, is_string : BOOLEAN]
 
 Init == inv \in Invs /\ lib \in Libs /\ readinput = FALSE /\ CInit
